@@ -18,15 +18,15 @@ Definition slot_val_ok (ct : ctx_table) (ac : accept_ctx) (f : str) (v : sval) :
       exists name V row, assoc name (ac_visits ac) = Some V /\ find_row V (ac_builder ac) = Some row /\ b_field row = f
         /\ (b_mode row = MExtend -> count_of b <> 0)
         /\ (act_full ct name = Some (AParse DNow) \/ act_full ct name = Some (AReadLen false))
-  | VSrcs l =>
+  | VRows l =>
       exists slot V row, assoc slot (ac_deferred ac) = Some V /\ find_row V (ac_builder ac) = Some row /\ b_field row = f
-        /\ forallb (stores_into ct slot) l = true
+        /\ forallb (fun r => stores_into ct slot (fst r)) l = true
   end.
 
 Record raw_inv {K} (ct : ctx_table) (ac : accept_ctx) (PKc : list str -> K -> Prop) (PKr : K -> Prop) (st : titem K) : Prop := mkRI {
   ri_slots : forall f v, assoc f (it_slots st) = Some v -> slot_val_ok ct ac f v;
   ri_unknown : forall n b, In (n, b) (it_unknown st) -> act_full ct n = Some (AReadLen true);
-  ri_code : forall ms ml fs k, it_code st = Some (ms, ml, fs, k) ->
+  ri_code : forall ms ml fs xr k, it_code st = Some (ms, ml, fs, xr, k) ->
       PKc fs k /\ exists attr V row sk, assoc attr (ac_visits ac) = Some V /\ find_row V (ac_builder ac) = Some row
                                         /\ act_full ct attr = Some (ACode sk);
   ri_rcs_kids : forall n d k, In (n, d, k) (it_rcs st) -> PKr k;
@@ -53,7 +53,7 @@ Lemma step_raw_inv {K} strict ct ac (nb : nbuild K) (PKc : list str -> K -> Prop
   (forall es k, nb_rc nb es = Ok k -> PKr k) ->
   raw_inv ct ac PKc PKr st -> build_step strict ct ac nb st e = Ok st' -> raw_inv ct ac PKc PKr st'.
 Proof.
-  intros Hc Hr Hi Hb. destruct e as [name raw body | d sy | slot srcs | attr | attr ms ml fs es | attr k n d [es|] | | ];
+  intros Hc Hr Hi Hb. destruct e as [name raw body | d sy | slot srcs | attr | attr ms ml fs xr es | attr k n d [es|] | | ];
     cbn [build_step] in Hb; try discriminate.
   - assert (Hnamed : forall row, (act_full ct name = Some (AParse DNow) \/ act_full ct name = Some (AReadLen false)) ->
               row_of ac name = Some row -> fill strict row body st = Ok st' -> raw_inv ct ac PKc PKr st').
@@ -83,15 +83,15 @@ Proof.
     destruct (strict && _); [discriminate|].
     destruct (b_mode row); try discriminate. destruct (assoc (b_field row) (it_slots st)); [discriminate|]. injection Hb as <-.
     apply raw_inv_set_slot; [exact Hi|]. exists slot, V, row. repeat split; try assumption.
-    apply forallb_forall. intros n Hn. apply in_map_iff in Hn as (x & <- & Hx). apply filter_In in Hx as [Hx _].
-    exact (forallb_In' _ _ _ Est Hx).
+    apply forallb_forall. intros r Hr0. unfold flat_rows in Hr0. apply in_flat_map in Hr0 as (x & Hx & Hr0).
+    apply in_map_iff in Hr0 as (r0 & <- & _). cbn [fst]. exact (forallb_In' _ _ _ Est Hx).
   - destruct (act_full ct attr) as [[| | | |sk|]|] eqn:Ea; try discriminate.
     destruct (row_of ac attr) as [row|] eqn:Erow; [|discriminate].
     destruct (b_mode row); try discriminate. destruct (it_code st); [discriminate|].
     destruct (nb_code nb fs es) as [k|] eqn:Enb; [|discriminate]. injection Hb as <-.
     unfold row_of in Erow. destruct (assoc attr (ac_visits ac)) as [V|] eqn:EV; [|discriminate].
     destruct Hi as [H1 H2 H3 H4 H5 H6]. constructor; cbn [it_slots it_unknown it_code it_rcs it_flags]; try assumption.
-    intros ms' ml' fs' k' [= <- <- <- <-]. split; [exact (Hc _ _ _ Enb)|]. exists attr, V, row, sk. auto.
+    intros ms' ml' fs' xr' k' [= <- <- <- <- <-]. split; [exact (Hc _ _ _ Enb)|]. exists attr, V, row, sk. auto.
   - destruct (act_full ct attr) as [[| | | | |o]|] eqn:Ea; try discriminate.
     destruct (row_of ac attr) as [row|] eqn:Erow; [|discriminate].
     destruct (b_mode row); try discriminate. destruct (Nat.eqb k (length (it_rcs st))); [|discriminate].
@@ -267,8 +267,8 @@ Qed.
 
 (* what the nested levels must provide: replaying a nested item into the builder re-creates it *)
 Record nested_rebuild {K} (ct : ctx_table) (nb : nbuild K) (na : naccept K) (PKc : list str -> K -> Prop) (PKr : K -> Prop) : Prop := mkNR {
-  nr_code : forall attr sk ms ml fs k, act_full ct attr = Some (ACode sk) -> PKc fs k ->
-      exists es', na_code na attr ms ml fs k = [ECode attr ms ml fs es'] /\ nb_code nb fs es' = Ok k;
+  nr_code : forall attr sk ms ml fs xr k, act_full ct attr = Some (ACode sk) -> PKc fs k ->
+      exists es', na_code na attr ms ml fs xr k = [ECode attr ms ml fs xr es'] /\ nb_code nb fs es' = Ok k;
   nr_rc : forall attr i n d k, PKr k ->
       exists es', na_rc na attr i n d k = ERc attr i n d (Some es') /\ nb_rc nb es' = Ok k;
 }.
@@ -350,13 +350,13 @@ Proof.
         repeat match goal with H : str_eqb _ _ = true |- _ => apply str_eqb_eq in H end; subst;
         (left; reflexivity) || (right; reflexivity). }
   (* the entry of a stored table *)
-  assert (Htable : forall f l, assoc f (it_slots it) = Some (VSrcs l) -> step_comp s = Some (CSlot f) ->
+  assert (Htable : forall f l, assoc f (it_slots it) = Some (VRows l) -> step_comp s = Some (CSlot f) ->
             exists slot V row, assoc slot (ac_deferred ac) = Some V /\ rassoc V (ac_deferred ac) = Some slot
               /\ find_row V (ac_builder ac) = Some row /\ b_field row = f /\ b_mode row = MOnce
-              /\ forallb (stores_into ct slot) l = true
+              /\ forallb (fun r => stores_into ct slot (fst r)) l = true
               /\ ((exists g, s = SOpt g f V)
                   \/ (exists flags kinds, s = SLocals flags f V kinds
-                        /\ forall n, In n l -> exists g, kind_flag AT kinds n = Some g /\ mem g flags = true))).
+                        /\ forall r, In r l -> exists g, kind_flag AT kinds (fst r) = Some g /\ mem g flags = true))).
   { intros f l Hv Hc. destruct (R1 f _ Hv) as (slot & V & row & HV & Hrow & Hf & Hst).
     pose proof (forallb_In' _ _ _ (cf_deferred _ _ _ CF) (assoc_In _ _ _ HV)) as Hd.
     unfold deferred_entry_ok in Hd. cbn [fst snd] in Hd. rewrite Hrow in Hd.
@@ -371,9 +371,9 @@ Proof.
     destruct s; try discriminate.
     - apply andb_prop in Hs0 as [Hs0 _]. apply andb_prop in Hs0 as [Hf0 HV0]. apply str_eqb_eq in Hf0, HV0. subst. left. eexists; reflexivity.
     - apply andb_prop in Hs0 as [Hs0 Hnames]. apply andb_prop in Hs0 as [Hf0 HV0]. apply str_eqb_eq in Hf0, HV0. subst.
-      right. exists flags, kinds. split; [reflexivity|]. intros n Hn.
-      pose proof (stored_names_spec ct except slot _ n Hct Hnames (forallb_In' _ _ _ Hst Hn)) as Hp. cbv beta in Hp.
-      destruct (gov ct n) as [g|]; [|discriminate]. apply andb_prop in Hp as [Hp1 Hp2]. apply ostr_eqb_eq in Hp1. exists g. auto. }
+      right. exists flags, kinds. split; [reflexivity|]. intros r Hn.
+      pose proof (stored_names_spec ct except slot _ (fst r) Hct Hnames (forallb_In' _ _ _ Hst Hn)) as Hp. cbv beta in Hp.
+      destruct (gov ct (fst r)) as [g|]; [|discriminate]. apply andb_prop in Hp as [Hp1 Hp2]. apply ostr_eqb_eq in Hp1. exists g. auto. }
   (* building a stored body again *)
   assert (Hrefill : forall f b name V row, assoc name (ac_visits ac) = Some V -> find_row V (ac_builder ac) = Some row -> b_field row = f ->
             (b_mode row = MExtend -> count_of b <> 0) -> b_mode row <> MPush ->
@@ -386,13 +386,13 @@ Proof.
       destruct (N.eqb_spec (count_of b) 0) as [E0|_]; [exfalso; exact (Hcnt eq_refl E0)|reflexivity]. }
     destruct Hact as [-> | ->]; rewrite HV, Hrow; exact Hfill. }
   assert (Hretable : forall f l slot V row, assoc slot (ac_deferred ac) = Some V -> find_row V (ac_builder ac) = Some row -> b_field row = f ->
-            b_mode row = MOnce -> forallb (stores_into ct slot) l = true -> assoc f (it_slots st) = None ->
-            build_step false ct ac nb st (EDeferred slot (with_rows l)) = Ok (set_slot f (VSrcs l) st)).
+            b_mode row = MOnce -> forallb (fun r => stores_into ct slot (fst r)) l = true -> assoc f (it_slots st) = None ->
+            build_step false ct ac nb st (EDeferred slot (one_each l)) = Ok (set_slot f (VRows l) st)).
   { intros f l slot V row HV Hrow Hf Hm Hst Hnone. cbn [build_step]. rewrite HV, Hrow, Hm, Hf, Hnone.
-    assert (E1 : forallb (fun x : str * bool => stores_into ct slot (fst x)) (with_rows l) = true).
-    { unfold with_rows. clear -Hst. induction l as [|n l IHl]; [reflexivity|]. cbn [forallb map fst] in *.
+    assert (E1 : forallb (fun x : str * list Model.row => stores_into ct slot (fst x)) (one_each l) = true).
+    { unfold one_each. clear -Hst. induction l as [|n l IHl]; [reflexivity|]. cbn [forallb map fst] in *.
       apply andb_prop in Hst as [-> Hst]. exact (IHl Hst). }
-    rewrite E1. cbn [negb andb]. rewrite rows_with_rows. reflexivity. }
+    rewrite E1. cbn [negb andb]. rewrite flat_one_each. reflexivity. }
   destruct s as [|g f V|g f V|g f V|g f V|g f V|g f V mm| |g| | |flags f V kinds].
   - (* SFlags *)
     pose proof (cf_flags _ _ _ CF) as Hf. unfold flags_ok in Hf.
@@ -445,8 +445,8 @@ Proof.
   - (* SCode *)
     apply andb_prop in Hj as [Hj _]. apply andb_prop in Hj as [Hg _].
     cbn [run_step]. rewrite (interested_full ct g Hg).
-    destruct (it_code it) as [[[[ms ml] fs] k]|] eqn:Ec.
-    + destruct (R3 ms ml fs k eq_refl) as (HPK & attr & V0 & row & sk & HV & Hrow & Ha).
+    destruct (it_code it) as [[[[[ms ml] fs] xr] k]|] eqn:Ec.
+    + destruct (R3 ms ml fs xr k eq_refl) as (HPK & attr & V0 & row & sk & HV & Hrow & Ha).
       pose proof (forallb_In' _ _ _ (cf_visits _ _ _ CF) (assoc_In _ _ _ HV)) as Hv0.
       unfold visit_entry_ok in Hv0. cbn [fst snd] in Hv0. rewrite Ha, Hrow in Hv0.
       apply andb_prop in Hv0 as [Hv0 Hs0]. apply andb_prop in Hv0 as [_ Hr]. apply ostr_eqb_eq in Hr.
@@ -458,7 +458,7 @@ Proof.
       pose proof (Hsame s0 CCode Hin0 eq_refl Hc0) as <-.
       unfold entry_step_ok in Hs0. destruct (b_mode row) eqn:Em; try discriminate.
       apply andb_prop in Hs0 as [_ HV0]. apply str_eqb_eq in HV0. subst V0. rewrite Hr.
-      destruct (nr_code _ _ _ _ _ Hnr attr sk ms ml fs k Ha HPK) as (es' & -> & Hb).
+      destruct (nr_code _ _ _ _ _ Hnr attr sk ms ml fs xr k Ha HPK) as (es' & -> & Hb).
       cbn [fold_res build_step]. unfold row_of. rewrite Ha, HV, Hrow, Em.
       destruct Hag as [A1 A2 A3 A4 A5]. rewrite A3, (Hnot CCode eq_refl), Hb.
       eexists. split; [reflexivity|].
@@ -509,7 +509,7 @@ Proof.
     + destruct (Hbody f b Ev eq_refl) as (name & V0 & row & g0 & _ & _ & _ & _ & _ & _ & _ & [Hs|Hs]); discriminate.
     + destruct (Htable f l Ev eq_refl) as (slot & V0 & row & HV & Hr & Hrow & Hf & Hm & Hst & [[g0 Hs]|(fl & kd & Hs & Hk)]); [discriminate|].
       injection Hs as Hfl1 HVV Hkd1. subst fl V0 kd. rewrite Hr.
-      assert (Hkept : filter (fun n => match kind_flag AT kinds n with Some g => interested (t_interests ct) g | None => false end) l = l).
+      assert (Hkept : filter (fun r : str * Model.row => match kind_flag AT kinds (fst r) with Some g => interested (t_interests ct) g | None => false end) l = l).
       { apply filter_all_true. intros n Hn. destruct (Hk n Hn) as (g0 & -> & Hg0).
         apply interested_full. apply (forallb_In' _ _ _ Hfl0).
         unfold mem in Hg0. apply existsb_exists in Hg0 as (y & Hy & Hyg). apply str_eqb_eq in Hyg. subst y. exact Hy. }
@@ -579,8 +579,8 @@ Proof.
     assert (comp_done (ac_steps ac) CUnknown = true) by (apply existsb_exists; exists s0; auto). congruence. }
   assert (Hcode : it_code st = it_code it).
   { rewrite A3. destruct (comp_done (ac_steps ac) CCode) eqn:Ed; [reflexivity|].
-    destruct (it_code it) as [[[[ms ml] fs] k]|] eqn:Ec; [|reflexivity]. exfalso.
-    destruct (R3 ms ml fs k eq_refl) as (_ & attr & V0 & row & sk & HV & Hrow & Ha).
+    destruct (it_code it) as [[[[[ms ml] fs] xr] k]|] eqn:Ec; [|reflexivity]. exfalso.
+    destruct (R3 ms ml fs xr k eq_refl) as (_ & attr & V0 & row & sk & HV & Hrow & Ha).
     pose proof (forallb_In' _ _ _ (cf_visits _ _ _ CF) (assoc_In _ _ _ HV)) as Hv0.
     unfold visit_entry_ok in Hv0. cbn [fst snd] in Hv0. rewrite Ha, Hrow in Hv0. apply andb_prop in Hv0 as [_ Hs0].
     destruct (gov ct attr); [|discriminate]. cbn [entry_comp] in Hs0.
